@@ -231,8 +231,9 @@ type run struct {
 	refKey     map[vivid.ActorRef]key
 	obs        []lib.T
 	seens      []seen
-	panics     []panicRec      // scripted failures raised by user code, with the failing actor's state at that moment
-	decs       []decRec        // every consultation of a scripted supervision strategy
+	panics     []panicRec // scripted failures raised by user code, with the failing actor's state at that moment
+	decs       []decRec   // every consultation of a scripted supervision strategy
+	slog       []slogEv
 	deadLaunch map[string]bool // paths whose OnLaunch was reported as a dead letter
 	scripted   map[string]bool // paths of actors that were given a scripted strategy (others use the system default)
 	spawnLog   []lib.T
@@ -329,6 +330,15 @@ func (r *run) msgDesc(msg any, toRoot bool) (lib.T, int, string, uint64) {
 }
 
 // ---- scripted actor
+
+// slogEv is one entry of the event-stream order log (C19): 0 Subscribe, 1 Unsubscribe, 2 UnsubscribeAll, 3 Publish
+// (each logged when the call has returned; the calls are atomic under the controlled scheduler), 4 = an event handled.
+type slogEv struct {
+	kind    int
+	who     key
+	ty      uint64
+	payload uint64
+}
 
 // panicRec / decRec feed the C08 monitor "a failure of a running child is presented to its (surviving) parent's strategy".
 type panicRec struct {
@@ -530,11 +540,15 @@ func (r *run) exec(c apiCtx, full vivid.ActorContext, who key, a Action, ext int
 		panic(fmt.Sprintf("scripted failure"))
 	case aSub:
 		c.EventStream().Subscribe(full, typedEvent(a.Ty, 0))
+		r.slog = append(r.slog, slogEv{0, who, a.Ty, 0})
 	case aUnsub:
 		c.EventStream().Unsubscribe(full, typedEvent(a.Ty, 0))
+		r.slog = append(r.slog, slogEv{1, who, a.Ty, 0})
 	case aUnsubAll:
 		c.EventStream().UnsubscribeAll(full)
+		r.slog = append(r.slog, slogEv{2, who, 0, 0})
 	case aPub:
+		r.slog = append(r.slog, slogEv{3, who, a.Ty, a.Payload}) // the subscriber snapshot is taken inside this call, before any yield
 		c.EventStream().Publish(full, typedEvent(a.Ty, a.Payload))
 	case aBecome:
 		full.Become(mode(a.Mode), vivid.WithBehaviorDiscardOld(a.Discard))
@@ -557,6 +571,14 @@ func (a *sa) interp(ctx vivid.ActorContext, mode uint64) {
 	desc, kind, ref, tag := r.msgDesc(ctx.Message(), false)
 	r.obs = append(r.obs, lib.L(lib.N(1), who.T(), lib.N(a.inst), lib.N(mode), desc))
 	r.seens = append(r.seens, seen{who, a.inst, mode, desc, kind, ref, tag})
+	switch ev := ctx.Message().(type) {
+	case Ev100:
+		r.slog = append(r.slog, slogEv{4, who, 100, ev.P})
+	case Ev101:
+		r.slog = append(r.slog, slogEv{4, who, 101, ev.P})
+	case Ev102:
+		r.slog = append(r.slog, slogEv{4, who, 102, ev.P})
+	}
 	var acts []Action
 	switch m := ctx.Message().(type) {
 	case *vivid.OnLaunch:
@@ -605,6 +627,7 @@ type result struct {
 	decs        []decRec
 	scripted    map[string]bool
 	deadLaunch  map[string]bool
+	slog        []slogEv
 }
 
 type finalInfo struct {
@@ -751,7 +774,7 @@ func execute(scripts [][]Action, choose func([]int, int) int) result {
 	}
 	res.obs = r.obs
 	res.seens = r.seens
-	res.panics, res.decs, res.scripted, res.deadLaunch = r.panics, r.decs, r.scripted, r.deadLaunch
+	res.panics, res.decs, res.scripted, res.deadLaunch, res.slog = r.panics, r.decs, r.scripted, r.deadLaunch, r.slog
 	res.sent = r.sends
 	// final projection
 	for _, c := range r.order {
@@ -927,7 +950,7 @@ func (g *gen) acts(depth int, path []uint64, inHandler bool) []Action {
 				out = append(out, Action{K: aUnsubAll})
 			}
 		case k < 26 && inHandler:
-			out = append(out, Action{K: aPub, Ty: uint64(100 + g.r.Intn(2)), Payload: uint64(g.r.Intn(50))})
+			out = append(out, Action{K: aPub, Ty: uint64(100 + g.r.Intn(2)), Payload: g.tag()})
 		case k < 27 && inHandler:
 			out = append(out, Action{K: aBecome, Mode: uint64(1 + g.r.Intn(3)), Discard: g.r.Bool()})
 		case inHandler:
@@ -1126,7 +1149,7 @@ func (g *gen) streamScenario() [][]Action {
 		for i := 0; i < 1+g.r.Intn(3); i++ {
 			switch g.r.Intn(8) {
 			case 0, 1, 2:
-				acts = append(acts, Action{K: aPub, Ty: ty(), Payload: uint64(g.r.Intn(90))})
+				acts = append(acts, Action{K: aPub, Ty: ty(), Payload: g.tag()})
 			case 3:
 				acts = append(acts, Action{K: aSub, Ty: ty()})
 			case 4:
@@ -1445,6 +1468,89 @@ func (h *H) monitors(scripts [][]Action, res result, in lib.T) {
 		}
 		if got < n {
 			h.o.Monitor("c08-failure-not-supervised", in, fmt.Sprintf("%s failed %d time(s) while running, but the strategy of its parent %s (alive and untouched for the whole run) was consulted only %d time(s) about it", child, n, parent, got))
+		}
+	}
+	// ---- C19: an event is delivered only to actors that were subscribed to its type when it was published: for
+	// every handled event there must be a publication of that (type, payload) before it at which the receiving
+	// context had a subscription to the type in force (Subscribe returned, no Unsubscribe/UnsubscribeAll since)
+	for i, e := range res.slog {
+		if e.kind != 4 {
+			continue
+		}
+		ok := false
+		subscribed := false
+		for _, f := range res.slog[:i] {
+			switch {
+			case f.who == e.who && f.kind == 0 && f.ty == e.ty:
+				subscribed = true
+			case f.who == e.who && f.kind == 1 && f.ty == e.ty:
+				subscribed = false
+			case f.who == e.who && f.kind == 2:
+				subscribed = false
+			case f.kind == 3 && f.ty == e.ty && f.payload == e.payload && subscribed:
+				ok = true
+			}
+		}
+		if !ok {
+			h.o.Monitor("c19-delivered-to-non-subscriber", in, fmt.Sprintf("%v handled event type %d payload %d, but at no publication of that event before it was it subscribed to the type (its Unsubscribe/UnsubscribeAll had returned, or it never subscribed)", e.who, e.ty, e.payload))
+		}
+	}
+	// ---- C19: exactly once. due[(who,ty,payload)] = publications of that event at which who had a subscription in
+	// force; it never handles the event more often than that, and handles it exactly that often if it lives through
+	// the whole run untouched (one incarnation, never failed or killed, running with an empty mailbox at quiescence)
+	type evk struct {
+		who     key
+		ty, pay uint64
+	}
+	due, got := map[evk]int{}, map[evk]int{}
+	cur := map[key]map[uint64]bool{}
+	for _, f := range res.slog {
+		switch f.kind {
+		case 0:
+			if cur[f.who] == nil {
+				cur[f.who] = map[uint64]bool{}
+			}
+			cur[f.who][f.ty] = true
+		case 1:
+			delete(cur[f.who], f.ty)
+		case 2:
+			delete(cur, f.who)
+		case 3:
+			for w, tys := range cur {
+				if tys[f.ty] {
+					due[evk{w, f.ty, f.payload}]++
+				}
+			}
+		case 4:
+			got[evk{f.who, f.ty, f.payload}]++
+		}
+	}
+	untouched := map[key]bool{}
+	for _, f := range res.finals {
+		if f.reg && f.info.State == 0 && !f.info.Zombie && !f.paused && f.sysLen == 0 && f.userLen == 0 && f.k.path != "/" {
+			untouched[f.k] = true
+		}
+	}
+	nLaunch := map[key]int{}
+	for _, sn := range res.seens {
+		if sn.kind == 1 {
+			nLaunch[sn.who]++
+		}
+		if sn.kind == 2 {
+			untouched[sn.who] = false
+		}
+	}
+	for _, pn := range res.panics {
+		untouched[pn.who] = false
+	}
+	for k, n := range got {
+		if n > due[k] {
+			h.o.Monitor("c19-duplicate-delivery", in, fmt.Sprintf("%v handled event type %d payload %d %d time(s) although it was subscribed at only %d publication(s) of it", k.who, k.ty, k.pay, n, due[k]))
+		}
+	}
+	for k, n := range due {
+		if untouched[k.who] && nLaunch[k.who] == 1 && got[k] < n {
+			h.o.Monitor("c19-not-delivered", in, fmt.Sprintf("%v was subscribed at %d publication(s) of event type %d payload %d and lived through the run untouched, but handled it only %d time(s)", k.who, n, k.ty, k.pay, got[k]))
 		}
 	}
 	// ---- C06 / C19: at quiescence the event-stream tables mirror each other and name live actors only
